@@ -81,8 +81,8 @@ type RangeAgg struct {
 	Op       string
 	Sel      []Matcher
 	Stages   []Stage // pipeline between the selector and unwrap
-	Unwrap   string // label ("" = no unwrap)
-	Conv     string // "", bytes, duration, duration_seconds
+	Unwrap   string  // label ("" = no unwrap)
+	Conv     string  // "", bytes, duration, duration_seconds
 	RangeNS  int64
 	OffsetNS int64
 	Param    *float64
@@ -162,14 +162,26 @@ type Bin struct {
 	// Bool: the comparison carries the `bool` modifier. Which of the two conventions (false = 0, false = dropped)
 	// the modifier selects is not stated by the property: the model evaluates it like the plain form, under cv.
 	Bool bool
+	// Parens: that many redundant pairs of parentheses are written around each operand (no meaning).
+	Parens int
 }
 
 // Text implements Expr (fully parenthesised operands unless atoms).
 func (e *Bin) Text() string {
-	if e.Bool {
-		return wrap(e.L) + " " + e.Op + " bool " + wrap(e.R)
+	l, r := wrap(e.L), wrap(e.R)
+	// redundant pairs of parentheses around the operands that are not literals
+	for k := 0; k < e.Parens; k++ {
+		if _, lit := e.L.(*Lit); !lit {
+			l = "(" + l + ")"
+		}
+		if _, lit := e.R.(*Lit); !lit {
+			r = "(" + r + ")"
+		}
 	}
-	return wrap(e.L) + " " + e.Op + " " + wrap(e.R)
+	if e.Bool {
+		return l + " " + e.Op + " bool " + r
+	}
+	return l + " " + e.Op + " " + r
 }
 
 func wrap(e Expr) string {
